@@ -893,6 +893,11 @@ class ConstructedPayloadDecoderBase(AbstractConstructedPayloadDecoder):
 
                 idx += 1
 
+            # e.g. SIZE constraint of SEQUENCE OF/SET OF
+            inconsistency = asn1Object.isInconsistent
+            if inconsistency:
+                raise inconsistency
+
         yield asn1Object
 
     def indefLenValueDecoder(self, substrate, asn1Spec,
@@ -1131,6 +1136,11 @@ class ConstructedPayloadDecoderBase(AbstractConstructedPayloadDecoder):
                 )
 
                 idx += 1
+
+            # e.g. SIZE constraint of SEQUENCE OF/SET OF
+            inconsistency = asn1Object.isInconsistent
+            if inconsistency:
+                raise inconsistency
 
         yield asn1Object
 
